@@ -1,7 +1,7 @@
 import SqlObjVerif.Model.Conc
 import SqlObjVerif.Model.DrvUtil
 /-! Driver for C09.  Request (one line, space separated `key=value`):
-    `c=<0|1> freq=<n> frac=<n> cc=<n> off=<n> strong=<i:o,…|-> weak=<i:o,…|-> db=<i,…|-> fresh=<n>
+    `c=<0|1> freq=<n> frac=<n> cc=<n> off=<n> strong=<i:o,…|-> weak=<i:o,…|-> db=<i,…|-> fresh=<n> pins=<o,…|->
      progs=<ops/ops/…> sched=<t,t,…|->`   with ops = `.`-joined `g<i>` `c<i>` `x<i>` `A` `C` (or `-`).
     The schedule is run, then drained (lowest enabled thread first).
     Answer: `outs=<per thread, / separated> lock=… strong=… weak=… unfinished=… stale=… cc=… off=… tr=<t:kind,…>`. -/
@@ -45,7 +45,7 @@ def kindOf : Pc → String
   | .relRel _ _ | .relSet _ _ | .finRel _ _ | .finRelNF _ | .exRel | .exRelErr | .eaRel | .eaRelErr
   | .cuRel _ | .cuRelErr => "release"
   | .weakGet _ | .cuWeakChk _ _ => "weak.get"
-  | .weakDel _ _ | .exDelWeak _ => "weak.del"
+  | .weakDel _ _ | .weakDelDead _ _ | .exDelWeak _ | .cuWeakPop _ _ _ _ => "weak.del"
   | .strongSet _ _ | .put _ _ | .crSet _ _ => "strong.set"
   | .select _ | .crSelect _ _ => "db.select"
   | .insert _ => "db.insert"
@@ -72,6 +72,9 @@ def joinOr (sep : String) (l : List String) : String := if l.isEmpty then "-" el
 
 def showMap (m : AMap) : String := joinOr "," (m.map fun (k, v) => s!"{k}:{v}")
 
+def showWeak (s : State) : String :=
+  joinOr "," (s.weak.map fun (k, v) => if alive s v then s!"{k}:{v}" else s!"{k}:dead")
+
 /-- run with trace: effective steps only -/
 def runTr (s : State) (tr : List String) : List Tid → State × List String
   | [] => (s, tr)
@@ -93,19 +96,19 @@ def handle (line : String) : String :=
   let g (k : String) : Option String := kv ws k
   match (g "c"), (g "freq").bind String.toNat?, (g "frac").bind String.toNat?, (g "cc").bind String.toNat?,
         (g "off").bind String.toNat?, (g "strong").bind amap?, (g "weak").bind amap?, (g "db").bind natList?,
-        (g "fresh").bind String.toNat?, (g "progs").bind (fun s => (s.splitOn "/").mapM prog?),
+        (g "fresh").bind String.toNat?, (g "pins").bind natList?, (g "progs").bind (fun s => (s.splitOn "/").mapM prog?),
         (g "sched").bind natList? with
-  | some c, some freq, some frac, some cc, some off, some strong, some weak, some db, some fresh, some progs,
+  | some c, some freq, some frac, some cc, some off, some strong, some weak, some db, some fresh, some pins, some progs,
     some sched =>
     let n := progs.length
-    let s0 := mkInit (c == "1") strong weak db fresh freq frac cc off (fun t => progs.getD t [])
+    let s0 := mkInit (c == "1") strong weak db fresh freq frac cc off pins (fun t => progs.getD t [])
     let (s1, tr1) := runTr s0 [] (sched.filter (· < n))
     let (s2, tr2) := drainTr n 100000 s1 tr1
     let outs := joinOr "/" ((List.range n).map fun t => joinOr "," ((s2.th t).outs.map showOut))
     let unfinished := joinOr "," (((List.range n).filter fun t => !finished s2 t).map toString)
     let lock := match s2.lock with | none => "-" | some t => toString t
-    s!"outs={outs} lock={lock} strong={showMap s2.strong} weak={showMap s2.weak} unfinished={unfinished} " ++
+    s!"outs={outs} lock={lock} strong={showMap s2.strong} weak={showWeak s2} unfinished={unfinished} " ++
     s!"stale={joinOr "," (s2.stale.map toString)} cc={s2.cc} off={s2.off} tr={joinOr "," tr2.reverse}"
-  | _, _, _, _, _, _, _, _, _, _, _ => "bad-request"
+  | _, _, _, _, _, _, _, _, _, _, _, _ => "bad-request"
 
 def main : IO Unit := loopPure handle
